@@ -4,9 +4,16 @@
 // (hook bfe_http2.VerifC35: real Framer / hpack / processFrameFromReader / writeFrame / wroteFrame / handler
 // goroutines; only the select of serverConn.serve and the writeFrames goroutine are played by the harness).
 //
-//	op     = m=<advMaxStreams>;<ev>;<ev>;...
+//	op     = m=<advMaxStreams>[/<chunk>];<ev>;<ev>;...     chunk: the frame reader gets the client's bytes in pieces of
+//	                                                       at most <chunk> bytes (segmentation)
 //	ev     = H<id>:<0|1>:<kind>   client HEADERS on stream id, END_STREAM flag, kind ok | cl<n> | bad | tr
 //	         D<id>:<n>:<0|1>      client DATA of n bytes, END_STREAM flag
+//	           more kinds: nometh nopath scheme status badpath connectbad head (newWriterAndRequest rejects; head is
+//	           valid with END_STREAM), connect, invupper invafter invunk invdup invval invmix (rejected by the frame
+//	           reader), ch<i> (i-th name of the server's connHeaders list) te te2 (answered by the 400 handler: the H
+//	           event then includes its response and ends held / blocked), teok teempty (valid)
+//	         Z<id>                client PUSH_PROMISE
+//	         T<id>                a stream timeout fires for stream id (serve loop's timeoutEventCh case)
 //	         R<id>                client RST_STREAM
 //	         D<id>:<n>:<0|1>:<pad> the same with the PADDED flag and pad >= 1 bytes of padding
 //	         F<id>                the handler of stream id returns        (its END_STREAM frame goes in flight)
@@ -47,11 +54,18 @@ func exec(op string) string {
 	if len(parts) < 1 || !strings.HasPrefix(parts[0], "m=") {
 		return "bad-op"
 	}
-	adv, err := strconv.Atoi(parts[0][2:])
+	ms := strings.SplitN(parts[0][2:], "/", 2)
+	adv, err := strconv.Atoi(ms[0])
 	if err != nil || adv < 1 || adv > 1000 {
 		return "bad-op"
 	}
-	v := bfe_http2.NewVerifC35(uint32(adv))
+	chunk := 0
+	if len(ms) == 2 {
+		if chunk, err = strconv.Atoi(ms[1]); err != nil || chunk < 1 {
+			return "bad-op"
+		}
+	}
+	v := bfe_http2.NewVerifC35Chunked(uint32(adv), chunk)
 	defer v.Close()
 	var outs []string
 	halfUpdated := false
@@ -70,6 +84,10 @@ func exec(op string) string {
 		switch {
 		case e == "W":
 			r = v.Wrote()
+		case e[0] == 'Z' && len(f) == 1:
+			r = v.PushPromise(id)
+		case e[0] == 'T' && len(f) == 1:
+			r = v.Timeout(id)
 		case e == "A":
 			r = v.ClientGoAway()
 		case e == "Q":
@@ -107,6 +125,9 @@ func exec(op string) string {
 		case e[0] == 'K' && len(f) == 2:
 			r = v.HeadersSplit(id, f[1] == "1")
 		case e[0] == 'H' && len(f) == 3:
+			if !validKind(f[2]) {
+				return "bad-op"
+			}
 			r = v.Headers(id, f[1] == "1", f[2])
 		case e[0] == 'D' && len(f) == 3:
 			n, err := strconv.Atoi(f[1])
@@ -168,6 +189,78 @@ func exec(op string) string {
 	return o + "|" + st
 }
 
+var plainKinds = []string{"ok", "bad", "tr", "nometh", "nopath", "scheme", "status", "badpath", "connectbad", "head", "connect",
+	"invupper", "invafter", "invunk", "invdup", "invval", "invmix", "te", "te2", "teok", "teempty"}
+
+func validKind(k string) bool {
+	for _, p := range plainKinds {
+		if k == p {
+			return true
+		}
+	}
+	if strings.HasPrefix(k, "cl") || strings.HasPrefix(k, "ch") {
+		_, err := strconv.Atoi(k[2:])
+		return err == nil
+	}
+	return false
+}
+
+// pre: every frame type (and handler / timer / write-completion event) in every stream state (RFC 7540 5.1 table),
+// on the stream itself, on a fresh odd id, on an even id and on stream 0; limits exactly at / one over the
+// advertised SETTINGS_MAX_CONCURRENT_STREAMS; every connection-specific request header name of the server's list.
+func pre(emit func(op string), thorough bool) {
+	prefixes := []string{"", "H1:0:ok", "H1:0:cl3", "H1:0:cl0", "H1:1:ok", "H1:0:ok;D1:1:1", "H1:0:ok;H1:1:tr", "H1:0:ok;R1", "H1:0:bad",
+		"H1:1:invupper", "H1:1:ok;F1;W", "H1:0:ok;F1;W", "H1:0:ok;F1", "H1:1:ok;F1", "H1:0:ok;P1", "H1:1:ok;P1;W", "Si0;H1:0:ok;B1:5",
+		"Si0;H1:1:ok;B1:5", "H1:0:ok;Q", "H1:0:ok;H2:1:ok", "H1:0:ok;C1", "H1:0:ok;T1", "H1:1:ch0", "Si0;H1:0:te", "K1:0", "H1:0:connect", "A"}
+	var events []string
+	for _, id := range []int{1, 3, 2, 0} {
+		events = append(events, fmt.Sprintf("H%d:0:ok", id), fmt.Sprintf("H%d:1:ok", id), fmt.Sprintf("H%d:1:tr", id), fmt.Sprintf("H%d:0:tr", id),
+			fmt.Sprintf("H%d:1:invval", id), fmt.Sprintf("H%d:1:bad", id), fmt.Sprintf("H%d:1:ch1", id), fmt.Sprintf("K%d:1", id),
+			fmt.Sprintf("D%d:0:0", id), fmt.Sprintf("D%d:1:1", id), fmt.Sprintf("D%d:1:0:2", id), fmt.Sprintf("D%d:0:1:1", id), fmt.Sprintf("R%d", id),
+			fmt.Sprintf("U%d:1", id), fmt.Sprintf("U%d:0", id), fmt.Sprintf("U%d:2147483647", id), fmt.Sprintf("Y%d:3:0", id), fmt.Sprintf("Y%d:%d:1", id, id),
+			fmt.Sprintf("Z%d", id), fmt.Sprintf("T%d", id), fmt.Sprintf("F%d", id), fmt.Sprintf("P%d", id), fmt.Sprintf("B%d:5", id),
+			fmt.Sprintf("C%d", id), fmt.Sprintf("X%d", id), fmt.Sprintf("G%d", id))
+	}
+	events = append(events, "W", "S", "Sa", "Si0", "Si7", "Si2147483648", "Ga", "A", "Q")
+	for _, p := range prefixes {
+		for _, e := range events {
+			op := "m=3;" + p + ";" + e + ";W;U1:9;W;G0"
+			if p == "" {
+				op = "m=3;" + e + ";W;U1:9;W;G0"
+			}
+			emit(op)
+			if thorough {
+				emit(strings.Replace(op, "m=3;", "m=3/1;", 1))
+			}
+		}
+	}
+	// the advertised limit: exactly at it, one over, freed again, rejected requests in between (seeded C35)
+	for _, adv := range []int{1, 2, 3} {
+		var evs []string
+		id := 1
+		for i := 0; i < adv; i++ {
+			evs = append(evs, fmt.Sprintf("H%d:%d:ok", id, i%2))
+			id += 2
+		}
+		at := strings.Join(evs, ";")
+		emit(fmt.Sprintf("m=%d;%s;H%d:1:ok", adv, at, id))
+		emit(fmt.Sprintf("m=%d;%s;F1;W;H%d:1:ok;H%d:1:ok", adv, at, id, id+2))
+		emit(fmt.Sprintf("m=%d;%s;R1;H%d:1:ok;H%d:1:ok", adv, at, id, id+2))
+		emit(fmt.Sprintf("m=%d;H%d:1:bad;H%d:0:nopath;%s;H%d:1:ok", adv, 101, 103, strings.Replace(at, "H1:", "H105:", 1), 107))
+		emit(fmt.Sprintf("m=%d;H%d:1:bad;H%d:1:invupper;H%d:0:head;%s;H%d:1:ok;H%d:1:ok", adv, 101, 103, 103, strings.Replace(at, "H1:", "H105:", 1), 107, 109))
+	}
+	for i := range bfe_http2.VerifC35ConnHeaders() {
+		for _, es := range []int{0, 1} {
+			emit(fmt.Sprintf("m=3;H1:%d:ch%d;W;D1:1:0;G0", es, i))
+			emit(fmt.Sprintf("m=3;Si10;H1:%d:ch%d;U1:100;W", es, i))
+		}
+	}
+	for _, k := range []string{"te", "te2", "teok", "teempty"} {
+		emit("m=3;H1:0:" + k + ";F1;W;D1:1:0")
+		emit("m=3/3;H1:1:" + k + ";W;F1;W")
+	}
+}
+
 func gen(r *vh.Rand) string {
 	adv := r.Pick("1", "2", "3", "3", "5", "100")
 	n := r.Range(1, 14)
@@ -175,6 +268,9 @@ func gen(r *vh.Rand) string {
 		n = r.Range(15, 40)
 	}
 	next := 1
+	if r.Chance(1, 4) {
+		adv += "/" + r.Pick("1", "2", "3", "5", "9", "13", "100")
+	}
 	evs := []string{"m=" + adv}
 	if r.Chance(1, 3) { // a small send window, so that response bodies get blocked by flow control
 		evs = append(evs, "Si"+r.Pick("0", "1", "4", "5", "9", "100", "1000"))
@@ -222,10 +318,12 @@ func gen(r *vh.Rand) string {
 					kind = "cl" + r.Pick("0", "3", "5", "10")
 				}
 				if r.Chance(1, 12) {
-					kind = "bad"
+					kind = r.Pick("bad", "nometh", "nopath", "scheme", "status", "badpath", "connectbad", "invupper", "invafter", "invunk", "invdup", "invval", "invmix")
+				} else if r.Chance(1, 10) {
+					kind = r.Pick("connect", "teok", "teempty", "te", "te2", "ch0", "ch1", "ch2", "ch3", "ch4", "head")
 				}
 				used = append(used, id)
-				if kind != "bad" {
+				if kind == "ok" || strings.HasPrefix(kind, "cl") || kind == "connect" || kind == "teok" || kind == "teempty" || (kind == "head" && end == 1) {
 					alive = append(alive, id)
 					if end == 0 {
 						open = append(open, id)
@@ -286,7 +384,7 @@ func gen(r *vh.Rand) string {
 		}
 		switch x := r.Intn(20); {
 		case x < 6:
-			evs = append(evs, fmt.Sprintf("H%d:%d:%s", any(), r.Intn(2), r.Pick("ok", "ok", "tr", "bad", "cl3")))
+			evs = append(evs, fmt.Sprintf("H%d:%d:%s", any(), r.Intn(2), r.Pick("ok", "ok", "tr", "bad", "cl3", "cl0", "invval", "ch0", "te", "head", "connect")))
 		case x < 11:
 			evs = append(evs, fmt.Sprintf("D%d:%d:%d", any(), []int{0, 1, 3, 5, 7}[r.Intn(5)], r.Intn(2)))
 		case x < 13:
@@ -337,8 +435,13 @@ func genCtl(r *vh.Rand, live, other int) string {
 		return fmt.Sprintf("C%d", id)
 	case x < 34:
 		return fmt.Sprintf("X%d", other)
-	case x < 36:
+	case x < 35:
 		return "A"
+	case x < 36:
+		if r.Bool() {
+			return fmt.Sprintf("Z%d", id)
+		}
+		return fmt.Sprintf("T%d", id)
 	case x < 38:
 		return "Q"
 	default:
@@ -354,5 +457,6 @@ func btoi(b bool) int {
 }
 
 func main() {
+	vh.Pre = pre
 	vh.Main(gen, func(op string) string { return vh.SafeTimeout(30*time.Second, func() string { return exec(op) }) })
 }
